@@ -644,8 +644,8 @@ Definition spec_field_types (e : entity) (cs : list component) : Prop :=
 
 
 (* the same for the members: the nested message of every event, the request and response message of
-   every command method, the upsert message of every summary (after the upsert metadata) hold the
-   declared fields - name, type, repeated, key flags - in declaration order *)
+   every command method, the upsert message of every summary (after the upsert metadata), the objects
+   and oneofs declared in the entity block hold the declared fields - name, type, repeated, key flags - in declaration order *)
 Definition spec_member_field_types (e : entity) (cs : list component) : Prop :=
   (exists m, has_msg cs 0 m /\ m_name m = sp_name e "EventType"
      /\ Forall2 (fun ev n => fst n = ev_name ev /\ Forall2 field_as_declared (ev_fields ev) (snd n))
@@ -659,7 +659,16 @@ Definition spec_member_field_types (e : entity) (cs : list component) : Prop :=
   /\ (forall s, In s (e_summaries e) ->
         exists m up, has_msg cs 2 m /\ m_name m = sp_summary_name e s ++ bs "Message"
                      /\ Forall2 field_as_declared (s_fields s) (tl (m_fields m)) /\ hd_error (m_fields m) = Some up
-                     /\ f_json up = bs "upsert").
+                     /\ f_json up = bs "upsert")
+  (* the objects and oneofs declared in the entity block: a message of that name with the declared fields *)
+  /\ (forall s, In s (e_schemas e) ->
+        match s with
+        | SObject n fs => exists m, has_msg cs 0 m /\ m_name m = n /\ m_oneof m = false
+                                    /\ Forall2 field_as_declared fs (m_fields m)
+        | SOneof n fs => exists m, has_msg cs 0 m /\ m_name m = n /\ m_oneof m = true
+                                   /\ Forall2 field_as_declared fs (m_fields m)
+        | SEnum _ _ => True
+        end).
 
 (* THE SPECIFICATION, all clauses *)
 Definition C17_spec_all (e : entity) (cs : list component) : Prop :=
